@@ -91,6 +91,7 @@ def enumerate_cases(tier):
     for mode in ("", "dfs"):
         for tail in ("", " order by name"):
             cases.append({"kind": "unreadable-target", "mode": mode, "tail": tail})
+            cases.append({"kind": "unsearchable-dir", "mode": mode, "tail": tail})
     return cases
 
 
@@ -417,9 +418,49 @@ def check_unreadable_target(out, case):
         runner.rmtree(cdir)
 
 
+def check_unsearchable_dir(out, case):
+    """A directory that can be listed but not searched (r--): its entries have names and nothing else, and a
+    sub-directory in it cannot be listed at all - that is a directory that cannot be listed: named on standard error,
+    status 1, and every row outside it as without the fault."""
+    cdir = runner.new_case_dir()
+    base = os.path.join(cdir, "t")
+    try:
+        os.chmod(cdir, 0o755)
+        for d in ("", "/r", "/r/sub", "/other"):
+            os.mkdir(base + d)
+            os.chmod(base + d, 0o755)
+        for f in ("/ok.txt", "/r/x.txt", "/r/sub/deep.txt", "/other/o.txt"):
+            open(base + f, "w").close()
+        opts = ((" " + case["mode"]) if case["mode"] else "")
+        q = "select path from .%s%s into list" % (opts, case["tail"].replace("name", "path"))
+        control, res0 = run_nobody(out, base, q, 1)
+        os.chmod(base + "/r", 0o444)
+        try:
+            rows, res = run_nobody(out, base, q, 1)
+        finally:
+            os.chmod(base + "/r", 0o755)
+        if rows is None or control is None:
+            return
+        if res0.status != 0 or res0.err:
+            out.add("C17/unsearchable-dir/control-run-not-clean", query=q, status=res0.status, stderr=res0.err[:200])
+        outside = lambda rs: sorted(r[0] for r in rs if not r[0].startswith("./r/"))
+        if outside(rows) != outside(control):
+            out.add("C17/unsearchable-dir/rows-outside-changed", query=q, got=outside(rows), want=outside(control))
+        err = res.err.decode("utf-8", "replace")
+        if res.status != 1 or "./r" not in err:
+            out.add("C17/unsearchable-dir/not-reported", query=q, status=res.status, stderr=err[:300])
+        out.nt_keys = ["unsearchable-dir|%s|%s" % (case["mode"], case["tail"])]
+        out.classes.append("unsearchable-dir")
+        out.sample = {"query": q, "status": res.status, "stderr": err[:120]}
+    finally:
+        runner.rmtree(cdir)
+
+
 def check(case):
     out = Outcome()
-    if case["kind"] == "unreadable-target":
+    if case["kind"] == "unsearchable-dir":
+        check_unsearchable_dir(out, case)
+    elif case["kind"] == "unreadable-target":
         check_unreadable_target(out, case)
     elif case["kind"] == "pipe":
         check_pipe(out, case)
